@@ -442,12 +442,15 @@ int main(int argc, char **argv) {
     pid_t pid = nofork ? 0 : fork();
     if (pid == 0) {
       if (!nofork) alarm(30);      // a case that hangs is a crash, not a stalled check
-      { Ctx *C = new Ctx();
+      { std::vector<Ctx *> slots(1, new Ctx()); size_t cur = 0;
         for (size_t k = 0; k < cases[c].second.size(); k++) {
+          const std::string &ln = cases[c].second[k];
           // "newmodel": the rest of the case works on a fresh model (twin descriptions of one mechanism, C07)
-          if (cases[c].second[k] == "newmodel") { delete C; C = new Ctx(); g_luamode = false; continue; }
-          run_line(*C, cases[c].second[k], (long)k); }
-        delete C; }
+          if (ln == "newmodel") { delete slots[cur]; slots[cur] = new Ctx(); g_luamode = false; continue; }
+          // "use <k>": switch to another live model instance (interleaved use of independent instances, C20)
+          if (ln.compare(0, 4, "use ") == 0) { size_t s = (size_t) atoi(ln.c_str() + 4); while (slots.size() <= s) slots.push_back(new Ctx()); cur = s; continue; }
+          run_line(*slots[cur], ln, (long)k); }
+        for (size_t s = 0; s < slots.size(); s++) delete slots[s]; }
       fflush(stdout);
       if (!nofork) _exit(0);
     } else {
